@@ -20,6 +20,8 @@ import (
 	"fmt"
 	"math/big"
 	"math/rand"
+	"os"
+	"runtime/pprof"
 	"strings"
 	"sync"
 
@@ -35,6 +37,20 @@ import (
 )
 
 func main() { vrt.Main("C02", run) }
+
+// profile starts a CPU profile when VERIF_CPUPROFILE names a file (harness tuning only).
+func profile() func() {
+	path := os.Getenv("VERIF_CPUPROFILE")
+	if path == "" {
+		return func() {}
+	}
+	f, err := os.Create(path)
+	if err != nil {
+		return func() {}
+	}
+	pprof.StartCPUProfile(f)
+	return func() { pprof.StopCPUProfile(); f.Close() }
+}
 
 var ag *agg.Agg
 
@@ -645,12 +661,14 @@ func checkElementMutant(r *vrt.Run, i int, rng *rand.Rand, b []byte) {
 
 func run(r *vrt.Run) {
 	r.Rule("constructed: all five types with boundary-biased fields (nil/0/max ints, >256-bit ints where the format allows, data 0..70000 bytes, nil/empty/nested access lists, 0..3 authorizations, To nil), signatures zero/valid/arbitrary, blob sidecars none/v0/v1 with 0,1,2,6 blobs and mismatching counts. byte strings: encodings of such transactions with one RLP-level defect (lib/rlpmut), one structural edit (extra/dropped/swapped field, field kind, leading zero, resize, type byte, sidecar version/wrapping), or random. non-trivial signature = (type, sidecar form, #blobs, signature class, data length class, access-list shape, #auth, #hashes) for constructed cases; (origin type, mutation, accepted?, decoded type) for byte strings")
+	defer profile()()
 	ag = agg.New(r)
 	shrink := 1
 	if r.Race() {
 		// the race variant (thorough tier only) is about the shared hash/size/from caches;
-		// measured ~12x slowdown, so 1/40 of the workload keeps it at ~1/3 of the default cost
-		shrink = 40
+		// ~12x slowdown once large allocations are avoided (lightBlobs)
+		shrink = 12
+		lightBlobs = true
 	}
 	nNew := r.N(20000, 500000) / shrink
 	nMut := r.N(200000, 10000000) / shrink
@@ -799,16 +817,25 @@ func run(r *vrt.Run) {
 	}
 
 	ag.Flush()
-	for _, t := range []string{"legacy", "accesslist", "dynfee", "blob", "setcode"} {
-		r.Require("accepted_binary_"+t, 100)
-		r.Require("accepted_element_"+t, 100)
+	require := func(name string, n int64) {
+		if r.Race() && r.Quick() { // not a configured variant; sizes are 1/12 there
+			n /= 20
+		}
+		if lightBlobs && strings.HasPrefix(name, "sidecar_") {
+			n /= 4
+		}
+		r.Require(name, n)
 	}
-	r.Require("rejected_binary", 1000)
-	r.Require("sidecar_strip_checks", 100)
-	r.Require("sidecar_attach_checks", 100)
-	r.Require("json_roundtrips_constructed", 500)
-	r.Require("json_roundtrips_decoded", 500)
-	r.Require("fresh_size_checks", 1000)
+	for _, t := range []string{"legacy", "accesslist", "dynfee", "blob", "setcode"} {
+		require("accepted_binary_"+t, 100)
+		require("accepted_element_"+t, 100)
+	}
+	require("rejected_binary", 1000)
+	require("sidecar_strip_checks", 100)
+	require("sidecar_attach_checks", 100)
+	require("json_roundtrips_constructed", 500)
+	require("json_roundtrips_decoded", 500)
+	require("fresh_size_checks", 1000)
 	r.Assume("golang.org/x/crypto/sha3 legacy Keccak-256 as hash reference; refrlp as definition of canonical RLP and to extract the sidecar-free envelope")
 	r.Assume("JSON round trip is judged only for transactions UnmarshalJSON is documented (by its explicit checks) to admit: signature all-zero or in range with yParity/27/28/EIP-155 v, integers <= 256 bits, >= 1 blob hash, >= 1 authorization, non-nil storageKeys; for blob transactions with sidecar JSON reproduces the canonical (sidecar-free) transaction")
 }
